@@ -73,10 +73,13 @@ def tasks(tier):
     # contracts of other checks this property leans on are re-proved here
     # (dep.*): deterministic layout of the generated loops (C03), the
     # sorted-neighbour segment and flag (C01), re-ordering (C17)
+    # ... and the order of ghost/neighbour refreshes: emission order of the
+    # group template (C03 bounded) and every shipped one_timestep (C04)
     deps = ['dep:C03:determinism', 'dep:C01:sortseg', 'dep:C01:sortflag',
-            'dep:C17:apply']
+            'dep:C17:apply', 'dep:C03:bounded', 'dep:C04:traces',
+            'dep:C04:accel']
     return ['frames:%s' % m for m in mods] + ['reorder', 'wiring',
-                                              'canary'] + deps
+                                              'refresh', 'canary'] + deps
 
 
 def run_task(task, ctx):
@@ -96,6 +99,8 @@ def run_task(task, ctx):
         return task_frames(ctx, repo, task[7:])
     if task == 'reorder':
         return task_reorder(ctx, repo)
+    if task == 'refresh':
+        return task_refresh(ctx, repo)
     if task == 'wiring':
         return task_wiring(ctx, repo)
     if task == 'canary':
@@ -260,3 +265,105 @@ def task_wiring(ctx, repo):
         'wiring', [], z3.BoolVal(bool(ok)), m.path)],
         info='%d CPU NNPS constructor calls; %s' % (len(seen),
                                                    '; '.join(bad)[:300]))
+
+
+# ------------------------------------------------------------------ refresh
+def task_refresh(ctx, repo):
+    """Neighbour lists are never used stale: in every shipped one_timestep an
+    acceleration evaluation that does NOT refresh the neighbour structures
+    (update_nnps=False) is reached only when no stepper stage has written
+    positions since the last refresh -- also across the step boundary (the
+    schedule is run twice).  Otherwise the result depends on whether lists
+    are cached (old positions) or searched afresh (new positions, old
+    bins).  Steppers paired with an integrator: those of its own module, or
+    all of pysph/sph/integrator_step.py for the generic integrators."""
+    import re
+    from contracts import C04, C20
+    dt, t = z3.Real('dt'), z3.Real('t')
+    moves = {}
+    for mn, cn in C20.stepper_classes(repo):
+        for mm, c in repo.mro(mn, cn):
+            for node in c.body:
+                if isinstance(node, ast.FunctionDef) and (
+                        node.name == 'initialize' or
+                        re.match(r'stage\d+$', node.name)):
+                    if (mn, cn, node.name) in moves:
+                        continue
+                    w = set()
+                    for n_ in ast.walk(node):
+                        tg = []
+                        if isinstance(n_, ast.Assign):
+                            tg = n_.targets
+                        elif isinstance(n_, ast.AugAssign):
+                            tg = [n_.target]
+                        for tt in tg:
+                            if isinstance(tt, ast.Subscript) and isinstance(
+                                    tt.value, ast.Name):
+                                w.add(tt.value.id)
+                    moves[(mn, cn, node.name)] = bool(w & {'d_x', 'd_y',
+                                                           'd_z'})
+    obs = []
+    for mn, cn in C04.integrator_classes(repo):
+        m = repo.module(mn)
+        fn = [n for n in m.classes[cn].body if isinstance(n, ast.FunctionDef)
+              and n.name == 'one_timestep'][0]
+
+        def rec(nm):
+            def h(ex, st, a, k, n):
+                st.trace.append((nm, a, k))
+                return None
+            return Native(h)
+        attrs = {}
+        for i in range(1, 9):
+            attrs['stage%d' % i] = rec('stage%d' % i)
+        for nm in ('initialize', 'compute_accelerations', 'update_domain',
+                   'do_post_stage'):
+            attrs[nm] = rec(nm)
+        obj = SymObject(None, attrs, 'self')
+        ex = Executor(repo, m, qualname=cn + '.one_timestep', merge=False)
+        ex.lazy_attrs = True
+        try:
+            outs = ex.exec_function(fn, dict(self=obj, t=t, dt=dt),
+                                    State(pc=[dt > 0]))
+        except VCError as e:
+            ctx.outside('refresh.%s' % cn, str(e))
+            continue
+        ctx.function(m, fn, cn + '.one_timestep (refresh schedule)',
+                     ex.dropped)
+        own = [(a, b) for (a, b) in C20.stepper_classes(repo) if a == mn]
+        pairs = own or [(a, b) for (a, b) in C20.stepper_classes(repo)
+                        if a == 'pysph.sph.integrator_step']
+        for i_, o in enumerate(outs):
+            ev = []
+            okargs = True
+            for e in o.state.trace:
+                if e[0].startswith('stage') or e[0] == 'initialize':
+                    ev.append(('stage', e[0]))
+                elif e[0] == 'compute_accelerations':
+                    upd = e[2].get('update_nnps', e[1][1] if len(e[1]) > 1
+                                   else True)
+                    if not isinstance(upd, bool):
+                        okargs = False
+                    ev.append(('accel', upd))
+            bad = []
+            for (smn, scn) in pairs:
+                dirty = False
+                for rnd in (0, 1):
+                    for kind, v in ev:
+                        if kind == 'stage':
+                            if moves.get((smn, scn, v)):
+                                dirty = True
+                        elif v is True:
+                            dirty = False
+                        elif dirty and rnd == 1 or (dirty and rnd == 0 and
+                                                    False):
+                            bad.append('%s with %s' % (cn, scn))
+                        elif dirty:
+                            bad.append('%s with %s' % (cn, scn))
+            obs.append(Obligation('refresh.%s.%d' % (cn, i_), o.pc,
+                                  z3.BoolVal(okargs and not bad), m.path,
+                                  extra=dict(schedule=[str(x) for x in ev],
+                                             stale_with=sorted(set(bad))[
+                                                 :4])))
+    ctx.prove('refresh.neighbours_never_used_stale_in_one_timestep', obs,
+              use_nf=False)
